@@ -165,7 +165,11 @@ class WingSegment:
             # Check all the points are accounted for
             diff = int(sum(sec_N)-self.N)
             if diff != 0:
-                sec_N[0] -= diff # Use the root segment to make up the difference
+                if sec_N[0]-diff >= 0:
+                    sec_N[0] -= diff # Use the root segment to make up the difference
+                else: # The root section is too short to give up that many; take them from the longest sections instead
+                    for _ in range(diff):
+                        sec_N[sec_N.index(max(sec_N))] -= 1
 
             # Initialize span location storage
             node_span_locs = [0.0]
